@@ -269,7 +269,8 @@ theorem head_weight_monotone (T : Nat → Option Block) : FullStatementHeadWeigh
     · exact inv.fut k f hm
   · split
     · exact ⟨c, inv, WeightGE.refl c⟩
-    · exact (addCore_weight vt fuel s b c hs inv hT).2
+    · obtain ⟨c', h1, h2, _⟩ := (addCore_weight vt fuel s b c hs inv hT).2
+      exact ⟨c', h1, h2⟩
 
 /-- The plain reading: the head's cumulative QN never decreases. -/
 theorem head_qn_monotone {T : Nat → Option Block} (vt : ValidTree T) (fuel : Nat) (s : St) (b : Block) (c : List Block)
@@ -291,6 +292,32 @@ theorem head_qn_monotone {T : Nat → Option Block} (vt : ValidTree T) (fuel : N
     · omega
 
 /-! ## transactions of removed and added blocks -/
+
+/-- **reorg_pool, end to end.** After a crash-free `AddBlockOnChain` of any block of a valid tree — whatever
+    happens: nothing, an extension with a cascade of parked orphans, or a reorg that removes any number of
+    blocks and re-enters — the store holds a chain `c'` such that (new chain) a transaction is marked executed
+    exactly when a block of `c'` contains it, with that block's hash; and (removed blocks) every transaction of
+    every block of the old chain `c` that is no longer on `c'` is pending again, unless a block of `c'`
+    contains it (then it is executed there). -/
+theorem reorg_pool {T : Nat → Option Block} (vt : ValidTree T) (fuel : Nat) (s : St) (b : Block) (c : List Block)
+    (hs : Safe s) (inv : Inv T s.disk s.mem c) (hT : T b.hash = some b) :
+    ∃ c', Inv T (addBlock (fuel + 2) s b).1.disk (addBlock (fuel + 2) s b).1.mem c' ∧
+      (∀ t h, (addBlock (fuel + 2) s b).1.disk.executed t = some h ↔ ∃ x ∈ c', x.hash = h ∧ t ∈ x.txs) ∧
+      (∀ x ∈ c, x ∉ c' → ∀ t ∈ x.txs, t ∈ (addBlock (fuel + 2) s b).1.mem.pending ∨ ∃ y ∈ c', t ∈ y.txs) := by
+  unfold addBlock
+  split
+  · have inv' : Inv T s.disk (s.setMem { s.mem with future := upd s.mem.future b.pre (some b) }).mem c := by
+      refine ⟨inv.chain, inv.latest, inv.cache, ?_, inv.fromT⟩
+      intro k f hk
+      have hk' : upd s.mem.future b.pre (some b) k = some f := hk
+      rcases upd_eq_some hk' with ⟨e, hv⟩ | ⟨_, hm⟩
+      · simp at hv; subst hv; exact ⟨e.symm, hT⟩
+      · exact inv.fut k f hm
+    exact ⟨c, inv', pool_exact inv.chain, fun x hx hn => absurd hx hn⟩
+  · split
+    · exact ⟨c, inv, pool_exact inv.chain, fun x hx hn => absurd hx hn⟩
+    · obtain ⟨c', h1, _, h3⟩ := (addCore_weight vt fuel s b c hs inv hT).2
+      exact ⟨c', h1, pool_exact h1.chain, h3⟩
 
 /-- **reorg_pool, removal half.** When a live node removes the head `x` (one step of a reorg), every
     transaction of `x` is un-marked in the executed store and is pending again; nothing that was
